@@ -10,8 +10,9 @@
   `sendChallenge` (sendCHAPChallenge).  Packets are well-formed (decoding is C09's subject).
 
   External: the RADIUS exchange.  Its outcome is a parameter of the operation (`Radius`): `accept` /
-  `reject` answer unconditionally, `down` never answers, `verify` is an honest server that accepts iff the
-  credentials it was SHOWN verify against its user table.  What the Access-Request carries is part of
+  `reject` answer unconditionally, `down` never answers, `challenge` answers Access-Challenge (which the client
+  reports as an error, like no answer), `verify` is an honest server that accepts iff the credentials it was
+  SHOWN verify against its user table.  What the Access-Request carries is part of
   the model's observation (`Obs.rad`), so "RADIUS accepted THIS exchange" is a statement about the
   model, not an assumption.  `rand.Read` is not modelled (challenge values are opaque; the harness
   checks length and freshness).  Time: `lastFail` counts the seconds since the last recorded failure
@@ -30,7 +31,7 @@ inductive AState where | none_ | pending | success | failure
   deriving Repr, DecidableEq
 
 /-- scripted behaviour of the RADIUS server for one operation -/
-inductive Radius where | accept | reject | down | verify
+inductive Radius where | accept | reject | down | challenge | verify
   deriving Repr, DecidableEq
 
 /-- PAP password of a request: the user's real one, a wrong one, the empty string -/
@@ -102,6 +103,7 @@ def radAnswer (r : Radius) (verifies : Bool) : Option Bool :=
   | .accept => some true
   | .reject => some false
   | .down => none
+  | .challenge => none
   | .verify => some verifies
 
 /-- an honest server's check of the credentials it was shown -/
